@@ -108,10 +108,7 @@ def judge(ctx, c, out, m_parse, m_cmp, m_words, tag):
                        "tag": tag}, confirmed=confirmed)
 
 
-def has_zero_upper(r):
-    if r[0] == "rep" and r[3] == 0:
-        return True
-    return any(has_zero_upper(x) for x in r[1:] if isinstance(x, tuple))
+has_zero_upper = rc.has_zero_upper
 
 
 def gen_case(rng, depth=None):
